@@ -3,6 +3,7 @@ package main
 import (
 	"fmt"
 	"go/ast"
+	"go/constant"
 	"go/token"
 	"go/types"
 	"golang.org/x/tools/go/ssa"
@@ -461,6 +462,115 @@ func dependsOnID(info *types.Info, defs map[types.Object][]ast.Expr, e ast.Expr)
 	return found
 }
 
+// insideFuncLit: n lies inside a function literal of root.
+func insideFuncLit(root ast.Node, n ast.Node) bool {
+	in := false
+	ast.Inspect(root, func(m ast.Node) bool {
+		if fl, ok := m.(*ast.FuncLit); ok && fl.Pos() <= n.Pos() && n.End() <= fl.End() {
+			in = true
+		}
+		return !in
+	})
+	return in
+}
+
+// callReadsID: e calls a function or method of the package whose body reads an assigned ID
+// (f.hasIDs() → n.ID() != 0), directly or one level down.
+func (c *Ctx) callReadsID(info *types.Info, e ast.Expr) bool {
+	found := false
+	var look func(n ast.Node, depth int)
+	look = func(n ast.Node, depth int) {
+		ast.Inspect(n, func(m ast.Node) bool {
+			call, ok := m.(*ast.CallExpr)
+			if !ok || found {
+				return !found
+			}
+			f := calleeOf(info, call)
+			if f == nil || f.Pkg() == nil || f.Pkg().Path() != pkgIR {
+				return true
+			}
+			if f.Name() == "ID" && len(call.Args) == 0 {
+				found = true
+				return false
+			}
+			if fd := c.funcDecl(f); fd != nil && fd.Body != nil && depth < 2 {
+				look(fd.Body, depth+1)
+			}
+			return true
+		})
+	}
+	look(e, 0)
+	return found
+}
+
+// neverForAssignedIDs: cond compares an ID (x.ID(), or a local defined as such) with a constant
+// and is false for every ID ≥ 0.
+func neverForAssignedIDs(info *types.Info, defs map[types.Object][]ast.Expr, cond ast.Expr) bool {
+	be, ok := unparen(cond).(*ast.BinaryExpr)
+	if !ok {
+		return false
+	}
+	isID := func(e ast.Expr) bool {
+		e = unparen(e)
+		if call, ok := e.(*ast.CallExpr); ok && len(call.Args) == 0 {
+			if se, ok := unparen(call.Fun).(*ast.SelectorExpr); ok && se.Sel.Name == "ID" {
+				return true
+			}
+		}
+		if id, ok := e.(*ast.Ident); ok {
+			ds := defs[info.ObjectOf(id)]
+			if len(ds) == 0 {
+				return false
+			}
+			for _, d := range ds {
+				call, ok := unparen(d).(*ast.CallExpr)
+				if !ok || len(call.Args) != 0 {
+					return false
+				}
+				se, ok := unparen(call.Fun).(*ast.SelectorExpr)
+				if !ok || se.Sel.Name != "ID" {
+					return false
+				}
+			}
+			return true
+		}
+		return false
+	}
+	var k constant.Value
+	op := be.Op
+	switch {
+	case isID(be.X) && info.Types[be.Y].Value != nil:
+		k = info.Types[be.Y].Value
+	case isID(be.Y) && info.Types[be.X].Value != nil:
+		k = info.Types[be.X].Value
+		// mirror the operator: k op id  ≡  id op' k
+		switch op {
+		case token.LSS:
+			op = token.GTR
+		case token.LEQ:
+			op = token.GEQ
+		case token.GTR:
+			op = token.LSS
+		case token.GEQ:
+			op = token.LEQ
+		}
+	default:
+		return false
+	}
+	if k.Kind() != constant.Int {
+		return false
+	}
+	switch op {
+	case token.LSS, token.LEQ, token.EQL:
+		// false for all id ≥ 0 iff false at id = 0 (LSS / LEQ are monotone; EQL with a negative constant)
+		if op == token.EQL {
+			return constant.Sign(k) < 0
+		}
+		return !constant.Compare(constant.MakeInt64(0), op, k)
+	}
+	return false
+}
+
 func ruleOBS4(c *Ctx) []Obligation {
 	var obs []Obligation
 	info := c.pkg(pkgIR).TypesInfo
@@ -482,6 +592,28 @@ func ruleOBS4(c *Ctx) []Obligation {
 				return true
 			}
 			fails := returnsError(info, is.Body.List) || endsInPanic(is.Body.List)
+			// an early success exit that depends on assigned IDs skips the numbering for some
+			// histories (a value edited in after a print keeps no or a stale ID)
+			skips := false
+			if !fails && len(is.Body.List) == 1 && !insideFuncLit(sc.fd.Body, is) {
+				// a return of the numbering routine itself (not of a generator closure inside it,
+				// whose `return id` hands out a value)
+				if r, ok := is.Body.List[0].(*ast.ReturnStmt); ok && !returnsError(info, []ast.Stmt{r}) {
+					skips = true
+				}
+			}
+			if skips {
+				dep := dependsOnID(info, defs, is.Cond) || c.callReadsID(info, is.Cond)
+				if dep && !neverForAssignedIDs(info, defs, is.Cond) {
+					n++
+					for _, space := range strings.Split(space, "+") {
+						perSpace[space+" skip"]++
+						obs = append(obs, Obligation{Key: fmt.Sprintf("numbering of %s IDs: early exit #%d on assigned IDs", space, perSpace[space+" skip"]), Pos: c.pos(is.Pos()), Verdict: VIOL,
+							Detail: fmt.Sprintf("`if %s { return }` leaves the numbering routine depending on IDs that an earlier print assigned: a function edited after a print (an instruction replaced, a value unnamed) is not renumbered, so the next print shows stale or duplicate %%N although the same edits before the first print give a correct module", exprString(is.Cond))})
+					}
+				}
+				return true
+			}
 			if !fails {
 				return true
 			}
@@ -494,6 +626,11 @@ func ruleOBS4(c *Ctx) []Obligation {
 				}
 			}
 			if !dep {
+				return true
+			}
+			// a test that no assigned ID can satisfy (`id < -1`: numbering hands out IDs ≥ 0) does
+			// not depend on what an earlier print assigned
+			if neverForAssignedIDs(info, defs, is.Cond) {
 				return true
 			}
 			n++
